@@ -111,7 +111,7 @@ def report(pid, viols, known, spec_name, tier):
         emitted.add(key)
         if len(emitted) > 8:
             break
-        path = write_replay(v["property"], v, spec_name, tier)
+        path = write_replay(v["property"], v, v.get("spec") or spec_name, tier)
         print("VIOLATION property=%s replay=%s" % (v["property"], path))
         print("  clause=%s history=%s" % (v["clause"], json.dumps(v["history"], default=repr)))
     return len(unknown), sorted(seen_known)
@@ -147,7 +147,8 @@ def generic_replay(mod, pid, path):
     from . import engine
     with open(path) as f:
         rp = json.load(f)
-    spec = mod.make_spec(rp.get("tier", "quick"), rp.get("spec"))
+    from .props.base_run import resolve_spec
+    spec = resolve_spec(mod, rp.get("tier", "quick"), rp.get("spec"))
     engine._init_worker(spec, 0)
     run = engine.Run(spec)
     bad = 0
